@@ -320,6 +320,8 @@ def gen_upaths(rng, tree, root):
     return cands
 
 
+CREATE_NAMES = ["new", "a/b", "..", ".", " ", "../x", "/abs", "lnk", "l2", "link", "ldir", "c1", "a", "b", "sp ace", "ünï",
+                "x" * 300, "nul\x00byte", "a.m3u8", ".hidden", "sub"]
 RENAME_NAMES = ["Re/named", "Re/named", "plain", "..", " .. ", ".", " . ", "../x", "../../x", "/etc/x", "..|..",
                 "outside", "../outside", "a.b", " ", "sub", "x" * 300]
 
@@ -392,7 +394,8 @@ def m3u_stage(chk):
                 chk.count(1, nontrivial_key=("g", ti, raw) if ("%" in raw or ".." in raw or raw.startswith("/") or gcode != 10) else None)
                 chk.dist({10: "guard:inside", 11: "guard:refused"}.get(gcode, "guard:raises"))
                 # --- operations
-                op = rng.choice(["delete", "lookup", "get_items", "save", "save_rename", "save_rename"])
+                op = rng.choice(["delete", "lookup", "get_items", "save", "save_rename", "save_rename", "create", "as_list"])
+                create_name = rng.choice(CREATE_NAMES + [PurePosixPath(n).stem for n in tree["inside"][1]])
                 # the new name of a renaming save: ordinary, with separators, '.', '..' (they
                 # survive path_from_name when the URI has no extension), names of existing
                 # directories, blank-ish
@@ -406,8 +409,13 @@ def m3u_stage(chk):
                 stripped = new_name.strip().replace("/", "|")
                 if op == "save_rename" and new_name == pure.stem:
                     op = "save"
+                if op in ("create", "as_list"):
+                    # these do not take a URI: classify by the file create() will name
+                    cls = (False, False)
                 before = snapshot(str(root))
-                cls = classify_path(p, base)
+                if op not in ("create", "as_list"):
+                    cls = classify_path(p, base)
+                extra = "true"
                 with Recorder() as rec:
                     try:
                         if op == "delete":
@@ -421,6 +429,15 @@ def m3u_stage(chk):
                         elif op == "save":
                             res = provider.save(Playlist(uri=uri, tracks=(Track(uri="dummy:new"),)))
                             res = res and res.uri
+                        elif op == "create":
+                            res = provider.create(create_name)
+                            res = res and res.uri
+                        elif op == "as_list":
+                            refs = provider.as_list()
+                            res = [r.uri for r in refs]
+                            names = [os.fsencode(str(mpath.uri_to_path(r.uri))) for r in refs]
+                            extra = (f"match m3u_as_list_names fs base with Ok l => same_names l "
+                                     f"{g_list([g_name(n) for n in names])} | _ => false end")
                         else:
                             res = provider.save(Playlist(uri=uri, name=new_name, tracks=(Track(uri="dummy:new"),)))
                             res = res and res.uri
@@ -435,13 +452,19 @@ def m3u_stage(chk):
                 effects = [t for t in touches if t in rec.effects]
                 monitors_m3u(chk, op, uri, cls, root, base, before, after, effects, res, ti, tree,
                              new_name if op == "save_rename" else None)
-                mop = {"delete": "m3u_delete fs base p", "lookup": "m3u_lookup fs base p", "get_items": "m3u_lookup fs base p",
+                mop = {"create": f"m3u_create fs base (create_component {g_name(os.fsencode(create_name.strip()))} "
+                                 f"{g_name(b'.m3u8')})",
+                       "as_list": "m3u_as_list fs base",
+                       "delete": "m3u_delete fs base p", "lookup": "m3u_lookup fs base p", "get_items": "m3u_lookup fs base p",
                        "save": "m3u_save fs base p",
                        "save_rename": f"m3u_rename fs base p {g_name(os.fsencode(stripped + pure.suffix))}"}[op]
-                this_ops.append((upath, mop, raised, touches))
+                this_ops.append((upath, mop, raised, touches, extra))
                 op_meta.append({"tree": ti, "op": op, "uri": uri, "raised": raised, "new_name": new_name if op == "save_rename" else None,
                                 "touches": [(k, os.fsdecode(d), os.fsdecode(b)) for k, d, b in touches]})
                 chk.dist("op:" + op)
+                if op in ("create", "as_list"):
+                    chk.dist(f"{op}:" + ({0: "returned", 1: "RuntimeError", 2: "OSError", 3: "ValueError", 4: "BackendError"}.get(raised, "other")
+                                         if raised or op == "as_list" else ("created" if res else "None")))
                 chk.count(1, nontrivial_key=("o", ti, op, raw) if touches else None)
                 if after != before:
                     rebuild(tree, root)
@@ -488,9 +511,9 @@ def m3u_stage(chk):
         defs, body, n = "", [], 0
         for fs_name, fs_term, base_c, items in group:
             defs += f"Definition {fs_name} : node := {fs_term}.\n"
-            for upath, mop, raised, touches in items:
+            for upath, mop, raised, touches, extra in items:
                 body.append(f"(let fs := {fs_name} in let base := {base_c} in let p := abs_path base {g_str(upath)} in "
-                            f"check_outcome ({mop}) {raised} {g_list([g_touch(t) for t in touches])})")
+                            f"check_outcome ({mop}) {raised} {g_list([g_touch(t) for t in touches])} && ({extra}))")
                 n += 1
         texts.append(COQ_IMPORTS + defs
                      + "Definition check_outcome (o : outcome) (raised : Z) (real : list touch) : bool :=\n"
